@@ -46,8 +46,15 @@ package main
 // parsed is what translate gets (flagsdef / parsed: ghost record of the flag package's state).
 //@ ghost var flagsdef map[string]bool
 //@ ghost var parsed bool
+// strflag / boolflag: the variable each flag name was registered with
+//@ ghost var strflag map[string]*string
+//@ ghost var boolflag map[string]*bool
+// (the registered variable holds an arbitrary value from registration on: the default now, whatever
+// the command line says after flag.Parse)
 //@ assume func flag.StringVar (p, name, value, usage)
+//@   modifies cell(p)
 //@ assume func flag.BoolVar (p, name, value, usage)
+//@   modifies cell(p)
 //@ assume func flag.Parse
 //@ assume func flag.Args
 //@ func main
@@ -57,8 +64,12 @@ package main
 //@   ghost_at_call flag.StringVar flagsdef = flagsdef[arg1 := true]
 //@   ghost_at_call flag.BoolVar flagsdef = flagsdef[arg1 := true]
 //@   ghost_at_call flag.Parse parsed = true
+//@   ghost_at_call flag.StringVar strflag = strflag[arg1 := arg0]
+//@   ghost_at_call flag.BoolVar boolflag = boolflag[arg1 := arg0]
 //@   at_call flag.Parse [every documented flag is registered before the command line is parsed] flagsdef["out"] && flagsdef["dir"] && flagsdef["ignore-errors"] && flagsdef["source-comments"] && flagsdef["typecheck"] && flagsdef["skip-interfaces"]
 //@   at_call translate [the parsed command line is translated] parsed
+//@   at_call translate [-out is the output root, -dir the module directory] arg1 == *strflag["out"] && arg2 == *strflag["dir"]
+//@   at_call translate [-ignore-errors is what translate gets as ignoreErrors] arg3 == *boolflag["ignore-errors"]
 
 //@ func translate (pkgPatterns, outRootDir, modDir, ignoreErrors, tr)
 //@   may_reject
